@@ -164,7 +164,7 @@ class FuncGen(object):
         choices.append((1, 'select'))
         choices.append((1, 'tee'))
         if f.control:
-            choices += [(2, 'block'), (2, 'if'), (1, 'brblock'), (1, 'loopexpr')]
+            choices += [(2, 'block'), (2, 'if'), (1, 'brblock'), (1, 'loopexpr'), (1, 'ladder')]
         if f.calls and (self.callable or self.indirect):
             choices.append((3, 'call'))
         if f.memory and self.mem_mask is not None:
@@ -219,6 +219,8 @@ class FuncGen(object):
             return cond + [('if', t, arms[0], arms[1])]
         if kind == 'brblock':
             return self.brblock(t, depth)
+        if kind == 'ladder':
+            return self.ladder(t, depth)
         if kind == 'loopexpr':
             self.note('loop')
             return self.loop(t, depth)
@@ -285,6 +287,35 @@ class FuncGen(object):
                 body += [('br', 0)] + self.dead(t)
         self.labels.pop()
         return [('block', t, body)]
+
+    def ladder(self, t, depth):
+        """2-4 nested blocks of the SAME result type, each entered at a different operand-stack height (an extra operand is pushed
+        in front of each), the innermost one leaving by a value-carrying br_table / br_if / br whose targets are spread over the
+        levels: the carried value has to land in the result slot of whichever level is chosen at run time.  After each level
+        the value is marked (op with a level constant), so the level that received it shows in the result."""
+        ch = self.ch
+        self.note('ladder')
+        n = 2 + ch.below(3)
+        tmp = self.new_local(t)
+        ets = [ch.pick(self.f.types) for _ in range(n)]
+        base = len(self.labels)
+        self.labels += [t] * n
+        targets = list(range(n))
+        body = self.expr(t, depth - 2)
+        k = ch.below(4)
+        if k == 3:
+            body += self.expr(I32, depth - 2) + [('br_if', ch.pick(targets))]
+        else:
+            body += self.expr(I32, depth - 2) + [('br_table', [ch.pick(targets) for _ in range(ch.below(5))], ch.pick(targets))]
+            self.note('br_table')
+        mark = {I32: 'i32.add', I64: 'i64.xor', F32: 'f32.add', F64: 'f64.sub'}[t]
+        for lvl in range(n):
+            # close level lvl (innermost first): block, then remove the extra operand below the result and mark the value
+            self.labels.pop()
+            cv = (lvl + 1) * 0x101 if t in (I32, I64) else ((0x3f800000 + (lvl << 20)) if t == F32 else (0x3ff0000000000000 + (lvl << 48)))
+            body = self.expr(ets[lvl], 1) + [('block', t, body), ('local.set', tmp), ('drop',), ('local.get', tmp), ('%s.const' % t, cv), (mark,)]
+        assert len(self.labels) == base
+        return body
 
     def dying_tail(self, t, depth):
         """instructions that never fall through: leave the innermost label of type t (or the function) by br / br_table / return
